@@ -61,6 +61,30 @@ macro_rules! routes {
             same(&d.to_normalized(), "dual.to_normalized()")?;
             let dp = guarded(|| text.parse::<$dual>())?.map_err(|e| format!("parse::<dual>({}): {:?}", text, e))?;
             same(dp.as_normalized(), "dual parsed from text .as_normalized()")?;
+            // route 9: a previously used dual object re-initialised from the raw hash (three kinds of dirt)
+            for dirt in 0..3 {
+                let dr: $raw = match dirt {
+                    0 => <$raw>::new_from_internals_near_raw(30, &[63; 64], &[63; <$raw>::MAX_BLOCK_HASH_SIZE_2]),
+                    1 => {
+                        let mut a = vec![];
+                        for k in 0..8u8 {
+                            a.extend(vec![k + 1; 8]);
+                        }
+                        let mut b = vec![];
+                        for k in 0..(<$raw>::MAX_BLOCK_HASH_SIZE_2 / 8) as u8 {
+                            b.extend(vec![k + 40; 8]);
+                        }
+                        <$raw>::new_from_internals_near_raw(7, &a, &b)
+                    }
+                    _ => <$raw>::new_from_internals_near_raw(9, &crate::corpus::ramp(64, 5), &crate::corpus::ramp(<$raw>::MAX_BLOCK_HASH_SIZE_2, 9)),
+                };
+                let mut dd = guarded(|| <$dual>::from_raw_form(&dr))?;
+                guarded(|| dd.init_from_raw_form(&raw))?;
+                same(dd.as_normalized(), "re-used dual init_from_raw_form().as_normalized()")?;
+                if dd != d || !dd.is_valid() {
+                    return Err(format!("re-used dual (dirt {}) differs from a fresh one: {:?} vs {:?}", dirt, dd, d));
+                }
+            }
             // idempotence
             let twice = guarded(|| exp.normalize())?;
             same(&twice, "normalize twice")?;
@@ -128,7 +152,7 @@ pub fn run(ctx: &Ctx) -> Report {
     rep.set("exhaustive", true);
     rep.set(
         "rule",
-        "every raw hash of the corpus HASH (runs of every length 1..64 at every position, adjacent runs of different symbols, runs touching both ends, capacity lengths, all strings <=5 over {A,B,/}) is normalised through every route: normalize(), normalize_in_place(), clone_normalized(), From/Into, from_raw_form, str::parse into the normalising type, the normalised part of a dual hash built from the object and parsed from the text; each result must be valid and full_eq the object built from the reference run collapsing; idempotence; is_normalized <=> unchanged.  Cases are distinct raw hashes; all non-trivial.",
+        "every raw hash of the corpus HASH (runs of every length 1..64 at every position, adjacent runs of different symbols, runs touching both ends, capacity lengths, all strings <=5 over {A,B,/}) is normalised through every route: normalize(), normalize_in_place(), clone_normalized(), From/Into, from_raw_form, str::parse into the normalising type, the normalised part of a dual hash built from the object, parsed from the text and of a previously used dual object re-initialised with init_from_raw_form (three kinds of dirt); each result must be valid and full_eq the object built from the reference run collapsing; idempotence; is_normalized <=> unchanged.  Cases are distinct raw hashes; all non-trivial.",
     );
     rep
 }
